@@ -622,5 +622,11 @@ PROPS["C13"]["explanation"] += " (SWAPSTREAM) Hopen closes the stream of a live 
 PROPS["C07"]["rules"] = PROPS["C07"]["rules"] + [rules_loops.rule_redefinition_replaces]
 PROPS["C07"]["explanation"] += " (REDEFINE) VSfdefine replaces a stored definition of the same name when the type or the order differs."
 
+PROPS["C18"]["rules"] = PROPS["C18"]["rules"] + [(lambda ctx: rules_loops.rule_search_flag_reset(ctx, dirs=("mfhdf/hrepack/",), floor=2))]
+PROPS["C18"]["explanation"] += " (SEARCHFLAG) the found-flag of hrepack's option-table searches gets its start value for every name of a list."
+PROPS["C07"]["rules"] = PROPS["C07"]["rules"] + [(lambda ctx: rules_loops.rule_search_flag_reset(ctx, dirs=("hdf/src/vg.c", "hdf/src/vsfld.c"), floor=6))]
+PROPS["C07"]["explanation"] += " (SEARCHFLAG) the field-name searches of VSsetfields/VSfpack/VSsizeof/VSfexist reset their found-flag per requested field."
+PROPS["C19"]["rules"] = PROPS["C19"]["rules"] + [(lambda ctx: rules_loops.rule_search_flag_reset(ctx, dirs=("mfhdf/hdp/",), floor=3))]
+
 NOT_APPLICABLE = {}
 
